@@ -59,7 +59,7 @@ func init() {
 			tot := smt.IAdd(tn, d)
 			nsec := smt.IMod(tot, giga)
 			sec := smt.IAdd(ts, smt.IDiv(tot, giga))
-			return structure{fromIntTerm(nsec, types.Uint64), fromIntTerm(sec, types.Int64), (*value)(nil)}
+			return structure{fromIntTerm(nsec, types.Uint64), fromIntTerm(sec, types.Int64), args[0].(structure)[2]} // same location
 		},
 		"(time.Time).Before": func(fr *frame, args []value) value { return boolVal(timeLess(args[0], args[1])) },
 		"(time.Time).After":  func(fr *frame, args []value) value { return boolVal(timeLess(args[1], args[0])) },
